@@ -168,6 +168,18 @@ var specs = map[string]spec{
 		},
 		Assumptions: commonAssumptions, Plain: true, QuickStride: 1, ThoroughStride: 1, QuickDeadline: 420, ThoroughDeadline: 3000,
 	},
+	"C16": {
+		LevelText: "exhaustive enumeration of every string of length <=2 over all 256 byte values, length 3-4 over a 12-symbol alphabet (specials, entity letters, space, CR, LF, multi-byte, astral, quote, backslash), entity-like/tag-like/long/unusual strings, x every in-range integer argument; each pushed through the real Go directive by rendering and, for valid UTF-8, through the generated JavaScript in otto; outputs are judged by independent decoders (percent-decoding, JS evaluation of the quoted output, JSON parsing, HTML reference decoding) and by the prefix/length/UTF-8 laws of truncate; chains are checked against the composition of their members",
+		LevelNote: "trusted base: the decoders in harness/c16.go and otto as JS evaluator; NUL (which Go's HTML escaper maps to U+FFFD) and invalid UTF-8 are only checked for safety, not for exact decoding; the JS side is judged in UTF-16 units",
+		Technique: "exhaustive small-scope input enumeration with decoding oracles on both backends",
+		Level:     "model_checking",
+		Rule:      "a state is a distinct input string; transitions = directive applications (counters directive_applications_go/js); every case is non-trivial",
+		Bounds: map[string]string{
+			"quick":    "1 + 256 + 65536 byte strings, 12^3 + 12^4 alphabet strings, 24 special strings incl. 10 kB; insertWordBreaks limits 1..8, truncate limits 0..len+2",
+			"thorough": "same",
+		},
+		Assumptions: commonAssumptions, Plain: true, QuickStride: 4, ThoroughStride: 1, QuickDeadline: 420, ThoroughDeadline: 3000,
+	},
 	"C05": {
 		LevelText: "bounded exhaustive exploration of the real parser: every input of the stated small scopes is parsed under a controlled scheduler with a deterministic linear fuel bound (no wall clock), and small inputs under every parser/scanner interleaving up to 2 preemptions; termination, no panic, no deadlock and tree-xor-error are checked on every execution and every case is replayed on the uninstrumented build",
 		LevelNote: "assumes the bounded scopes are representative (small-scope hypothesis) and that the overlay instrumentation preserves behaviour (cross-checked case by case against the plain build)",
